@@ -91,7 +91,10 @@ def applyWr (tomb : Bool) (im : Img) (w : Wr) (bytes : Nat) : Img :=
       let lo := w.off / 16
       let hi := (w.off + bytes) / 16
       { im with tombs := slots.filter (fun s => s.1 ≥ lo && s.1 < hi) ++ im.tombs.filter (fun s => !(s.1 ≥ lo && s.1 < hi)) }
-    | _ => im
+    | _ =>
+      let lo := w.off / 16
+      let hi := (w.off + bytes) / 16
+      { im with tombs := im.tombs.filter (fun s => !(s.1 ≥ lo && s.1 < hi)) }
   else
     let b := w.part - first
     -- whatever lay in the written range is gone
@@ -110,7 +113,9 @@ open Foyer.Hyb in
 def readsOf (tomb : Bool) (nblocks nkeys : Nat) (im : Img) : List (Nat × Option Nat) :=
   let placed : List (Nat × Placed) := (List.range nblocks).flatMap fun b => (recoverBlock cfgL (idxOf im b)).map fun p => (b, p)
   let disk : List DiskEnt := placed.map fun (b, p) =>
-    match im.ents.find? (fun s => s.block = b && s.off = p.off && s.e.hash = p.hash && s.e.seq = p.seq) with
+    -- `load` reads `align_up(len)` bytes at the indexed position and accepts any entry there whose header,
+    -- range and checksum are fine; the caller then compares the decoded key
+    match im.ents.find? (fun s => s.block = b && s.off = p.off && alignUp PAGE s.e.len ≤ alignUp PAGE p.len) with
     | some s => { key := s.e.key, hash := p.hash, ver := s.e.ver, seq := p.seq }
     | none => { key := 1000000007, hash := p.hash, ver := 0, seq := p.seq }     -- unreadable: every lookup misses
   let tombs := if tomb then im.tombs.map (fun s => (s.2.1, s.2.2)) else []
